@@ -5,6 +5,7 @@ import JanetModel.Fiber.Macros
 import JanetModel.Fiber.GuardLemmas
 import JanetModel.Fiber.SchedLemmas
 import JanetModel.Fiber.Dyn
+import JanetModel.Fiber.Named
 namespace JanetModel.Props.C05
 open JanetModel.Fiber JanetModel.Gen.Fiber
 
@@ -141,6 +142,51 @@ example : firstParams { arity := 1, minArity := 0, rest := 1 } (.int 7) = [.int 
 example : firstParams { arity := 0, minArity := 0, rest := 1 } (.int 7) = [.single (.int 7)] := by decide
 example : firstParams { arity := 0, minArity := 0, rest := 2 } .nil = [.estruct] := by decide
 example : firstParams {} (.int 7) = [] := by decide
+
+/-! ### `&named` parameters -/
+
+theorem namedPrologue_estruct : ∀ (keys : List String), namedPrologue .estruct keys = .ok (keys.map fun _ => Val.nil)
+  | [] => rfl
+  | k :: ks => by simp [namedPrologue, inKey, namedPrologue_estruct ks]
+
+/-- ★ `&named` parameters never receive the first-resume value.  With at least one positional parameter (required or
+    `&opt`) the value goes to parameter 0 unchanged and every named parameter is nil; with a nil first value every
+    parameter is nil.  (All key lists, all arities.) -/
+theorem named_params_at_first_resume (arity minArity : Nat) (keys : List String) (v : Val) (h : 0 < arity ∨ v = .nil) :
+    ∃ ps, firstResumeNamed arity minArity keys v = .ok (ps, keys.map fun _ => Val.nil) ∧ ps.length = arity ∧
+      (0 < arity → ps[0]? = some v) := by
+  have hb : (baseParams { arity := arity, minArity := minArity, rest := 2 }) = List.replicate arity Val.nil ++ [Val.estruct] := by
+    simp [baseParams]
+  have hslot : (firstParams { arity := arity, minArity := minArity, rest := 2 } v).getD arity .nil = .estruct ∧
+      ((firstParams { arity := arity, minArity := minArity, rest := 2 } v).take arity).length = arity ∧
+      (0 < arity → ((firstParams { arity := arity, minArity := minArity, rest := 2 } v).take arity)[0]? = some v) := by
+    unfold firstParams
+    simp only [firstValueUsesArity, if_true, hb]
+    by_cases hv : v = .nil
+    · subst hv
+      simp only [if_true]
+      refine ⟨by simp [List.getD], by simp, fun ha => ?_⟩
+      rw [List.getElem?_take_of_lt ha, List.getElem?_append_left (by simpa using ha)]; simp [ha]
+    · have ha : 0 < arity := by rcases h with h | h; exact h; exact absurd h hv
+      simp only [hv, if_false, ha, if_true]
+      refine ⟨?_, by simp, fun _ => ?_⟩
+      · simp [List.getD, List.getElem?_set, List.getElem?_append_right, Nat.ne_of_lt ha]
+      · rw [List.getElem?_take_of_lt ha]; simp [ha]
+  unfold firstResumeNamed
+  simp only [hslot.1, namedPrologue_estruct]
+  exact ⟨_, rfl, hslot.2.1, hslot.2.2⟩
+
+/-- ★ … and a fiber function with ONLY named parameters that is first resumed with a non-nil value fails before its body
+    starts: janet_continue_no_check's VARARG branch replaces the `{}` of the struct slot by the tuple `(v)`, and the
+    prologue's first `(in slot :k)` raises.  (Behaviour of the current tree, modelled and compared with the implementation
+    on every run; the value is not delivered anywhere — there is no parameter it could go to.) -/
+theorem named_only_nonnil_first_value_fails (minArity : Nat) (k : String) (ks : List String) (v : Val) (hv : v ≠ .nil) :
+    firstResumeNamed 0 minArity (k :: ks) v = .error ("expected integer key for tuple in range [0, 1), got :" ++ k) := by
+  unfold firstResumeNamed firstParams
+  simp [firstValueUsesArity, baseParams, hv, List.getD, namedPrologue, inKey]
+
+example : firstResumeNamed 1 0 ["b", "a"] (.int 7) = .ok ([.int 7], [.nil, .nil]) := by rfl
+example : firstResumeNamed 0 0 ["b", "a"] (.int 7) = .error "expected integer key for tuple in range [0, 1), got :b" := by rfl
 
 /-! ## signals: nearest accepting fiber, and no other -/
 
